@@ -57,7 +57,7 @@ class Check(DiffCheck):
     assumptions = ['single vCPU for the tie (E2); the all-interleavings theorems are about the same step function',
                    'mutex is abstract in the model (owner + wait queue, max_retries = 0); its internal splock protocol is C01',
                    'sequential consistency; no migration / work stealing; interrupt error numbers > 0',
-                   'cv_wait_result is proved for interrupt-free programs (thread_interrupt on a READY thread is racy across vCPUs)']
+                   "'notified => returns 0' is proved for interrupt-free programs and proved REFUTED with thread_interrupt across vCPUs (finding F-C03-1)"]
     trusted_base = ['E2 engine (harness/E2, hooks H-clock/H-idle in thread.cpp)']
     partial_note = ''
 
